@@ -14,7 +14,8 @@ Everything is emitted as plain nested lists/tuples of N (Generated.v knows no mo
 """
 import os, re, struct
 
-HAND_FIRST = ["Date", "Rectangle", "Matrix"]      # modelled hand-written pairs keep fixed indices 0, 1, 2
+# modelled hand-written pairs keep fixed indices 0..4 (Typed/Hand.v hid_*)
+HAND_FIRST = ["Date", "Rectangle", "Matrix", "Action", "NameTree<Primitive>"]
 
 PRIMS = {"i32": 0, "u32": 1, "usize": 2, "f32": 3, "bool": 4, "Name": 5, "PdfString": 6, "Primitive": 7,
          "Dictionary": 8, "PlainRef": 9, "()": 10}
@@ -444,7 +445,41 @@ def extract(g, X):
     def getfn():
         i = filers.index("impl<'a, B, OC, SC, L> Resolve for StorageResolver")
         b = X.fn_body(filers[i:], "get")
-        # the error this load computed is wrapped in Shared (an optional match guard restricts it to that case)
-        shared = "true" if re.search(r"Err\(e\)\s*(?:if\s+\w+\s*)?=>\s*Err\(\s*PdfError::Shared\s*\{", b) else "false"
+        # the arm may carry a guard (`Err(e) if computed => …`: the error computed by this very load)
+        shared = "true" if re.search(r"Err\(e\)\s*(?:if\s+[^=]*?)?=>\s*Err\(\s*PdfError::Shared\s*\{", b) else "false"
         return shared
     g.attempt([("get_wraps_shared", "bool")], "file.rs:StorageResolver::get", getfn)
+
+    # ---- readers that follow a reference / treat a missing element as null (C18-b, C18-c) -------------------------
+    derive = X.strip_comments(X.read("pdf_derive/src/lib.rs"))
+    content = X.strip_comments(X.read("pdf/src/content.rs"))
+
+    def enum_readers():
+        """does the generated Object impl of an integer / a name enum resolve the primitive before matching it"""
+        b = X.fn_body(derive, "impl_object_for_enum")
+        out = []
+        for arm in (r"pdf::primitive::Primitive::Integer\s*\(\s*i\s*\)\s*=>", r"pdf::primitive::Primitive::Name\s*\(\s*name\s*\)\s*=>"):
+            m = re.search(arm, b)
+            if not m:
+                raise ValueError("enum arm")
+            head = b[:m.start()]
+            scrut = head[head.rindex("match"):]           # `match <scrutinee> {` just before the arm
+            out.append("true" if re.search(r"\bp\s*\.\s*resolve\s*\(\s*resolve\s*\)\s*\?", scrut) else "false")
+        return tuple(out)
+    g.attempt([("int_enum_reader_resolves", "bool"), ("name_enum_reader_resolves", "bool")],
+              "pdf_derive: impl_object_for_enum", enum_readers)
+
+    def matrix_reader():
+        b = X.item_body(content, r"impl\s+Object\s+for\s+Matrix\s*\{", "impl Object for Matrix")
+        return "true" if re.search(r"\bp\s*\.\s*resolve\s*\(\s*\w+\s*\)\s*\?\s*\.\s*into_array", b) else "false"
+    g.attempt([("matrix_reader_resolves", "bool")], "content.rs:impl Object for Matrix", matrix_reader)
+
+    def vec_reader():
+        """Vec<T>::from_primitive: an element that is a reference and fails with a missing-object error is read as Null
+        (kept when T accepts Null, left out otherwise)"""
+        b = X.item_body(obj, r"impl\s*<\s*T\s*:\s*Object\s*>\s*Object\s+for\s+Vec\s*<\s*T\s*>\s*\{", "impl Object for Vec<T>")
+        guard = re.search(r"Err\(\s*(\w+)\s*\)\s+if\s+(\w+)\s*&&\s*\1\.is_missing_object\(\)\s*=>", b)
+        isref = guard and re.search(r"let\s+%s\s*=\s*matches!\(\s*\w+\s*,\s*Primitive::Reference\(_\)\s*\)" % guard.group(2), b)
+        null = re.search(r"if\s+let\s+Ok\(\s*(\w+)\s*\)\s*=\s*T::from_primitive\(\s*Primitive::Null\s*,\s*\w+\s*\)\s*\{\s*\w+\.push\(\s*\1\s*\)", b)
+        return "true" if (guard and isref and null) else "false"
+    g.attempt([("vec_missing_element_null", "bool")], "object/mod.rs:impl Object for Vec<T>", vec_reader)
